@@ -13,7 +13,7 @@ mod model;
 
 use drive::{Cfg, ClientSys, Driver, Rec, RunObs};
 use hosted::HostedSys;
-use model::{arg_diff, Cb, DOp, Expect, Kind, Note, Phase, RefState, Write};
+use model::{arg_diff, Cb, Ctl, DOp, Expect, Kind, Note, Phase, RefState, Write};
 use proptest::prelude::*;
 use serde::{Deserialize, Serialize};
 use vcommon::{pick_index, Ctx, Verdict};
@@ -34,6 +34,9 @@ struct Case {
     /// Second schedule: `batch[i]` = do not run to a fixpoint after op i (several notifications
     /// are then available to the downlink at once). Empty = no second run.
     batch: Vec<bool>,
+    /// After the last op the runtime's end of the input channel is dropped (end of stream).
+    #[serde(default)]
+    close_input: bool,
 }
 
 impl Case {
@@ -65,7 +68,7 @@ impl Impl {
 }
 
 /// Run one implementation on an op list. `batch` empty = settle after every op.
-fn run(imp: Impl, cfg: &Cfg, ops: &[DOp], batch: &[bool]) -> RunObs {
+fn run(imp: Impl, cfg: &Cfg, ops: &[DOp], batch: &[bool], close_input: bool) -> RunObs {
     let settle_after = |i: usize| !batch.get(i).copied().unwrap_or(false);
     block_on_paused(cfg.seed, async {
         let rec = Rec::new();
@@ -73,14 +76,14 @@ fn run(imp: Impl, cfg: &Cfg, ops: &[DOp], batch: &[bool]) -> RunObs {
             Impl::Client => {
                 let sys = ClientSys::new(cfg, rec.clone());
                 let mut d = Driver::new(sys, rec);
-                d.run(ops, settle_after);
+                d.run(ops, settle_after, close_input);
                 d.observe()
             }
             Impl::Hosted => {
                 let sys = HostedSys::new(cfg, rec.clone(), ops);
                 let setup = sys.setup_error.clone();
                 let mut d = Driver::new(sys, rec);
-                d.run(ops, settle_after);
+                d.run(ops, settle_after, close_input);
                 let mut obs = d.observe();
                 if let Some(e) = setup {
                     obs.hang = Some(format!("harness setup: {}", e));
@@ -91,8 +94,8 @@ fn run(imp: Impl, cfg: &Cfg, ops: &[DOp], batch: &[bool]) -> RunObs {
     })
 }
 
-fn expects(case_cfg: &Cfg, ops: &[DOp]) -> (Vec<Expect>, RefState) {
-    let mut rs = RefState::new(case_cfg.kind, case_cfg.ewns, case_cfg.term);
+fn expects(case_cfg: &Cfg, imp: Impl, ops: &[DOp]) -> (Vec<Expect>, RefState) {
+    let mut rs = RefState::new(case_cfg.kind, case_cfg.ewns, case_cfg.term, imp == Impl::Hosted);
     let ex = ops.iter().map(|op| rs.step(op)).collect();
     (ex, rs)
 }
@@ -157,10 +160,10 @@ fn find_cause(imp: Impl, cfg: &Cfg, ops: &[DOp], ex: &[Expect], j: usize) -> (us
     let s = session_start(ex, ops, j);
     for p in s..j {
         let mut prefix: Vec<DOp> = ops[..=p].to_vec();
-        let (_, rs) = expects(cfg, &prefix);
+        let (_, rs) = expects(cfg, imp, &prefix);
         prefix.extend(probe(cfg.kind, &rs));
-        let (pex, _) = expects(cfg, &prefix);
-        let obs = run(imp, cfg, &prefix, &[]);
+        let (pex, _) = expects(cfg, imp, &prefix);
+        let obs = run(imp, cfg, &prefix, &[], false);
         let groups = group(&obs.trace, prefix.len());
         if let Some(d) = first_divergence(&pex, &groups, s) {
             let class = if d <= p {
@@ -185,7 +188,7 @@ fn check_impl(v: &mut Verdict, imp: Impl, case: &Case, ex: &[Expect], end: &RefS
     let cfg = case.cfg();
     let tag = format!("{}-{}", imp.name(), case.kind.name());
     let ops = &case.ops;
-    let obs = run(imp, &cfg, ops, &[]);
+    let obs = run(imp, &cfg, ops, &[], case.close_input);
     if let Some(h) = &obs.hang {
         v.fail(format!("{}:hang", tag), h.clone());
     }
@@ -194,7 +197,7 @@ fn check_impl(v: &mut Verdict, imp: Impl, case: &Case, ex: &[Expect], end: &RefS
             format!("{}:task-failed", tag),
             format!("a legal notification sequence made the downlink task / agent fail: {}", e),
         ),
-        Some(Ok(())) if !end.dead => v.fail(
+        Some(Ok(())) if !end.dead && !case.close_input => v.fail(
             format!("{}:stopped-early", tag),
             "the downlink task / agent stopped although no terminating unlinked was received".to_string(),
         ),
@@ -204,10 +207,18 @@ fn check_impl(v: &mut Verdict, imp: Impl, case: &Case, ex: &[Expect], end: &RefS
     v.class_if(obs.undelivered > 0, "input-closed-by-downlink");
     v.class_if(obs.split_frames > 0, "frame-split");
     let groups = group(&obs.trace, ops.len());
-    if !groups[ops.len()].is_empty() {
+    // after the last op nothing may fire; when the input is then closed the loss of a live link may
+    // (hosted) or may not (client) be reported as on_unlinked -- not a notification, not fixed by the statement
+    let tail = &groups[ops.len()];
+    let tail_ok = tail.is_empty() || (case.close_input && end.linked.is_some() && tail[..] == [Cb::Unlinked]);
+    if !tail_ok {
         v.fail(
             format!("{}:late-callback", tag),
-            format!("callbacks after the last op had been settled: {:?}", groups[ops.len()]),
+            format!(
+                "callbacks after the last op had been settled{}: {:?}",
+                if case.close_input { " / after the input was closed" } else { "" },
+                tail
+            ),
         );
     }
     let mut accepted = vec![false; ops.len()];
@@ -230,6 +241,7 @@ fn check_impl(v: &mut Verdict, imp: Impl, case: &Case, ex: &[Expect], end: &RefS
         // a local write is handled by one code path whatever the link state: no phase in its signature
         let cell = match ops[p] {
             DOp::W(w) => w.name().to_string(),
+            DOp::C(c) => c.name().to_string(),
             DOp::N(n) => format!("{}@{}", n.name(), ex[p].phase.cell()),
         };
         v.fail(
@@ -254,7 +266,7 @@ fn check_impl(v: &mut Verdict, imp: Impl, case: &Case, ex: &[Expect], end: &RefS
     let flat: Vec<Cb> = obs.trace.iter().map(|(_, c)| c.clone()).collect();
     // second schedule
     if case.batch.iter().any(|b| *b) {
-        let obs2 = run(imp, &cfg, ops, &case.batch);
+        let obs2 = run(imp, &cfg, ops, &case.batch, case.close_input);
         if let Some(h) = &obs2.hang {
             v.fail(format!("{}:hang", tag), format!("batched schedule: {}", h));
         }
@@ -276,9 +288,16 @@ fn classes(v: &mut Verdict, case: &Case, ex: &[Expect]) {
     let mut sup_event = false;
     let mut take_drop = false;
     let mut sessions = 0;
+    let mut writers_dropped = false;
+    let mut output_dropped = false;
     for (op, e) in case.ops.iter().zip(ex.iter()) {
         if let DOp::N(n) = op {
             let linked = matches!(e.phase, Phase::Sup | Phase::Pre | Phase::Syn);
+            if writers_dropped && e.phase != Phase::Dead {
+                v.class("notification-after-writers-dropped(read-only-mode)");
+                v.class_if(n.is_event() && e.phase == Phase::Sup, "suppressed-event-in-read-only-mode");
+                v.class_if(matches!(n, Note::Unlinked), "unlinked-in-read-only-mode");
+            }
             if n.is_event() && e.phase == Phase::Sup {
                 sup_event = true;
             }
@@ -295,15 +314,29 @@ fn classes(v: &mut Verdict, case: &Case, ex: &[Expect]) {
             v.class_if(matches!(n, Note::Synced) && e.phase != Phase::Dead, "synced");
             v.class_if(n.is_event() && e.phase == Phase::Pre, "event-unsynced-live");
             v.class_if(e.phase == Phase::Dead, "ops-after-termination");
+        } else if let DOp::C(c) = op {
+            match c {
+                Ctl::DropWriters => {
+                    v.class("writers-dropped");
+                    writers_dropped = true;
+                }
+                Ctl::DropOutput => {
+                    v.class("output-dropped");
+                    output_dropped = true;
+                }
+                Ctl::Stop => v.class("handle-stop"),
+            }
         } else {
             v.class_if(matches!(e.phase, Phase::Sup | Phase::Pre | Phase::Syn), "local-write-linked");
             v.class_if(e.phase == Phase::Unl, "local-write-unlinked");
+            v.class_if(output_dropped, "local-write-after-output-dropped");
         }
     }
     v.class_if(sup_event, "event-suppressed");
     v.class_if(take_drop, "take/drop");
     v.class_if(sessions >= 2, "relink");
     v.class_if(case.batch.iter().any(|b| *b), "batched-schedule");
+    v.class_if(case.close_input, "input-closed-at-end");
     v.class_if(case.events_when_not_synced, "events_when_not_synced");
     v.class_if(case.terminate_on_unlinked, "terminate_on_unlinked");
     // the property's non-triviality rule (DESIGN.md C08 NT)
@@ -315,14 +348,12 @@ fn classes(v: &mut Verdict, case: &Case, ex: &[Expect]) {
 fn check_legal(case: &Case) -> Verdict {
     let mut v = Verdict::new();
     let cfg = case.cfg();
-    if case.ops.iter().any(|op| match op {
-        DOp::N(n) => !n.fits(case.kind),
-        DOp::W(w) => !w.fits(case.kind),
-    }) {
+    if case.ops.iter().any(|op| !op.fits(case.kind)) {
         v.fail("harness:ill-typed-case", "op does not fit the downlink kind");
         return v;
     }
-    let (ex, end) = expects(&cfg, &case.ops);
+    let (ex, end) = expects(&cfg, Impl::Client, &case.ops);
+    let (exh, endh) = expects(&cfg, Impl::Hosted, &case.ops);
     if let Some(i) = ex.iter().position(|e| !e.legal) {
         v.fail(
             "harness:illegal-sequence",
@@ -332,10 +363,16 @@ fn check_legal(case: &Case) -> Verdict {
     }
     classes(&mut v, case, &ex);
     let c = check_impl(&mut v, Impl::Client, case, &ex, &end);
-    let h = check_impl(&mut v, Impl::Hosted, case, &ex, &end);
+    let h = check_impl(&mut v, Impl::Hosted, case, &exh, &endh);
+    // `handle.stop()` exists only for the hosted downlink: nothing to compare from there on
+    let comparable = case
+        .ops
+        .iter()
+        .position(|op| matches!(op, DOp::C(Ctl::Stop)))
+        .unwrap_or(case.ops.len());
     // differential: where both implementations satisfy the (lenient) reference they must agree exactly
     let mut differs = false;
-    for i in 0..case.ops.len() {
+    for i in 0..comparable {
         if c.accepted[i] && h.accepted[i] && c.groups[i] != h.groups[i] && !differs {
             differs = true;
             let class = mismatch(&[c.groups[i].clone()], &h.groups[i]);
@@ -367,14 +404,11 @@ fn check_legal(case: &Case) -> Verdict {
 fn check_illegal(case: &Case) -> Verdict {
     let mut v = Verdict::new();
     let cfg = case.cfg();
-    if case.ops.iter().any(|op| match op {
-        DOp::N(n) => !n.fits(case.kind),
-        DOp::W(w) => !w.fits(case.kind),
-    }) {
+    if case.ops.iter().any(|op| !op.fits(case.kind)) {
         v.fail("harness:ill-typed-case", "op does not fit the downlink kind");
         return v;
     }
-    let (ex, _) = expects(&cfg, &case.ops);
+    let (ex, _) = expects(&cfg, Impl::Client, &case.ops);
     let illegal = ex.iter().any(|e| !e.legal);
     for imp in [Impl::Client, Impl::Hosted] {
         let tag = format!("{}-{}", imp.name(), case.kind.name());
@@ -383,7 +417,7 @@ fn check_illegal(case: &Case) -> Verdict {
             schedules.push(&case.batch);
         }
         for batch in schedules {
-            let obs = run(imp, &cfg, &case.ops, batch);
+            let obs = run(imp, &cfg, &case.ops, batch, case.close_input);
             if let Some(h) = &obs.hang {
                 v.fail(format!("{}:hang", tag), h.clone());
             }
@@ -472,7 +506,7 @@ fn write_of(kind: Kind, r: &Raw) -> Write {
 /// Turn raw choices into a sequence a well-behaved link can produce:
 /// `(linked event* [synced event*] unlinked)*`, a refused link (`unlinked` while unlinked), for
 /// value downlinks at least one event before `synced`; local writes anywhere.
-fn legalise(kind: Kind, raws: &[Raw], with_writes: bool) -> Vec<DOp> {
+fn legalise(kind: Kind, raws: &[Raw], with_writes: bool, read_only_from_start: bool) -> Vec<DOp> {
     #[derive(PartialEq)]
     enum St {
         Unl,
@@ -481,7 +515,26 @@ fn legalise(kind: Kind, raws: &[Raw], with_writes: bool) -> Vec<DOp> {
     }
     let mut st = St::Unl;
     let mut ops = vec![];
+    if read_only_from_start {
+        ops.push(DOp::C(Ctl::DropWriters));
+    }
     for r in raws {
+        // control actions are legal in every state (they are not notifications)
+        match r.c {
+            250..=252 => {
+                ops.push(DOp::C(Ctl::DropWriters));
+                continue;
+            }
+            253 | 254 => {
+                ops.push(DOp::C(Ctl::DropOutput));
+                continue;
+            }
+            255 => {
+                ops.push(DOp::C(Ctl::Stop));
+                continue;
+            }
+            _ => {}
+        }
         let op = match st {
             St::Unl => match r.c {
                 0..=199 => {
@@ -542,6 +595,9 @@ fn anyorder(kind: Kind, raws: &[Raw]) -> Vec<DOp> {
             40..=79 => DOp::N(Note::Synced),
             80..=109 => DOp::N(Note::Unlinked),
             110..=229 => DOp::N(event_of(kind, r)),
+            250..=252 => DOp::C(Ctl::DropWriters),
+            253 | 254 => DOp::C(Ctl::DropOutput),
+            255 => DOp::C(Ctl::Stop),
             _ => DOp::W(write_of(kind, r)),
         })
         .collect()
@@ -549,7 +605,7 @@ fn anyorder(kind: Kind, raws: &[Raw]) -> Vec<DOp> {
 
 fn arb_case(kind: Kind, max_ops: usize, legal: bool) -> impl Strategy<Value = Case> {
     (
-        (any::<bool>(), any::<bool>(), any::<u64>(), any::<bool>()),
+        (any::<bool>(), any::<bool>(), any::<u64>(), any::<bool>(), prop_oneof![3 => Just(false), 1 => Just(true)], any::<bool>()),
         // small budgets starve the agent task (every idle byte-channel poll costs one unit): not C08's subject
         prop_oneof![Just(8usize), Just(16), Just(64)],
         // large enough for all frames of a case: the harness never splits a frame (see drive.rs)
@@ -561,8 +617,9 @@ fn arb_case(kind: Kind, max_ops: usize, legal: bool) -> impl Strategy<Value = Ca
             1 => Just(vec![true; max_ops]),
         ],
     )
-        .prop_map(move |((ewns, term, seed, with_writes), budget, in_cap, raws, mut batch)| {
-            let ops = if legal { legalise(kind, &raws, with_writes) } else { anyorder(kind, &raws) };
+        .prop_map(move |((ewns, term, seed, with_writes, ro_start, close_input), budget, in_cap, raws, mut batch)| {
+            let mut ops = if legal { legalise(kind, &raws, with_writes, ro_start) } else { anyorder(kind, &raws) };
+            ops.truncate(max_ops);
             batch.truncate(ops.len());
             Case {
                 kind,
@@ -573,6 +630,7 @@ fn arb_case(kind: Kind, max_ops: usize, legal: bool) -> impl Strategy<Value = Ca
                 in_cap,
                 ops,
                 batch,
+                close_input,
             }
         })
 }
@@ -584,6 +642,8 @@ fn main() {
         "legal classes: notification sequences a well-behaved link can produce ((linked event* [synced event*] unlinked)*, \
          refused link, value lanes send a value before synced; map events update/remove/clear/take/drop over 6 keys) x \
          events_when_not_synced x terminate_on_unlinked x interleaved local writes through the handle x \
+         control actions at generated positions (drop every write handle = read-only loops of the client tasks / hosted write \
+         stream end; client output channel lost; hosted handle.stop(); input closed at the end) x \
          coop budget / select seed (frames are delivered whole), fed to the real client downlink task and to the real agent-hosted \
          downlink, once settling after every op and once with a generated batching. Non-trivial = at least one event \
          received while linked-not-synced with lifecycle events suppressed, or a take/drop received while linked. Illegal \
@@ -593,9 +653,9 @@ fn main() {
     ctx.assume("the reference fold (model.rs) is the meaning of the statement: state = fold of notifications since linked; local writes are not notifications; callbacks only when synced or events_when_not_synced");
     ctx.assume("for take/drop the statement fixes the state before and after the notification, not intermediate states: the reference accepts on_remove per entry in key order with the progressive or the final map, or on_clear when every entry goes; the differential part still requires client == hosted exactly");
     ctx.assume("key order of a map downlink = numeric order of the i32 keys (BTreeMap order = Recon Value order for Int32)");
-    let n_map = ctx.pick(80_000, 4_000_000);
-    let n_val = ctx.pick(30_000, 1_500_000);
-    let n_ill = ctx.pick(15_000, 750_000);
+    let n_map = ctx.pick(240_000, 8_000_000);
+    let n_val = ctx.pick(100_000, 3_000_000);
+    let n_ill = ctx.pick(40_000, 1_500_000);
     let max_ops = ctx.pick(40, 80);
     ctx.prop("map-legal", n_map, move || arb_case(Kind::Map, max_ops, true), check_legal);
     ctx.prop("value-legal", n_val, move || arb_case(Kind::Value, max_ops, true), check_legal);
